@@ -223,6 +223,15 @@ Theorem C11_shared_handler_field_refuted :
 Proof. exact shared_handler_field_refuted. Qed.
 Print Assumptions C11_shared_handler_field_refuted.
 
+(* an answer assembled in a buffer shared by all connections (a seeded breaking change in GetClientConfig) is refuted: two
+   interleaved ConfigGet commands, client 1's answer contains client 2's items.  Positive side: C11_party_only_mappings (every
+   disclosed id is the sender's) for each command, linearizability of pairs in the correspondence run, and the racing-readers
+   harness mode (an answer names only objects of its sender). *)
+Theorem C11_shared_answer_buffer_refuted :
+  map b_answer (snd (buf_run true [(1, 2%nat); (2, 2%nat)] [0; 0; 1; 1; 0; 1; 0; 1]%nat)) = [Some [2; 1; 2]; Some [2; 1; 2]].
+Proof. exact shared_answer_buffer_refuted. Qed.
+Print Assumptions C11_shared_answer_buffer_refuted.
+
 (* contexts recycled through a pool when Execute returns (a seeded breaking change) are refuted: the handler of client 1's
    one-way command, still running when client 2's command is dispatched, then reads connection 2 / client 2 / the other body *)
 Theorem C11_pooled_context_refuted :
@@ -348,6 +357,14 @@ Theorem C11_cached_decision_refuted :
          HEv (EvSetActive 1 false); HCmd (KConn 2) 0 (c_demo 90 (Some 0) None)])) = [[(2, 121, 0)]; []; []].
 Proof. exact cached_default_target_refuted. Qed.
 Print Assumptions C11_cached_decision_refuted.
+
+(* expiry is not an input of any decision: an expired mapping / domain is an ordinary object of the (arbitrary) world and still
+   its owner's; letting anybody reap expired domains (a seeded breaking change) is refuted *)
+Theorem C11_reap_expired_refuted :
+  w_doms (dom_delete_reaping (fun _ => true) w_demo 3 0) = []
+  /\ exec current_table w_demo (KConn 3) 0 (c_demo 86 (Some 0) None) = mk false w_demo.
+Proof. exact reap_expired_refuted. Qed.
+Print Assumptions C11_reap_expired_refuted.
 
 (* the three properties hold for ANY dispatch table whose rows carry the columns their effect class requires
    (row_sound: identity from the connection, auth gate, party relation) — the table is data, the check is boolean *)
